@@ -337,7 +337,8 @@ class Verdict:
             if sig in seen_sigs:
                 continue
             seen_sigs.add(sig)
-            path = write_replay(self.prop, re.sub(r"[^A-Za-z0-9_.-]+", "_", sig)[:80], {"property": self.prop, "signature": sig, "what": desc, "replay": replay})
+            path = write_replay(self.prop, re.sub(r"[^A-Za-z0-9_.-]+", "_", sig)[:80], {"property": self.prop, "signature": sig, "what": desc, "replay": replay,
+                                                                                       "seed": seed(), "tier": os.environ.get("NSG_TIER", "quick")})
             print(f"VIOLATION property={self.prop} replay={path}")
             print(f"  {desc[:500]}")
             nviol += 1
